@@ -538,16 +538,35 @@ func b4(w *World, r *Report) {
 	if q == nil {
 		return
 	}
+	// under Query (closures and helpers included) the TotalPower of delegatees is accumulated
 	ok := false
-	for _, a := range q.AnonFuncs {
-		for _, b := range a.Blocks {
+	seenFn := map[*ssa.Function]bool{}
+	var scan func(f *ssa.Function, depth int)
+	scan = func(f *ssa.Function, depth int) {
+		if f == nil || f.Blocks == nil || seenFn[f] || depth > 2 {
+			return
+		}
+		seenFn[f] = true
+		for _, a := range f.AnonFuncs {
+			scan(a, depth)
+		}
+		for _, b := range f.Blocks {
 			for _, in := range b.Instrs {
-				if st, isS := in.(*ssa.Store); isS && strings.HasSuffix(w.Canon(st.Val), " + p0.TotalPower)") {
+				if bo, isB := in.(*ssa.BinOp); isB && bo.Op == token.ADD && strings.HasSuffix(w.Canon(bo), ".TotalPower)") && strings.Contains(w.Canon(bo), "φ") {
+					ok = true // an accumulator (phi) plus some delegatee's TotalPower
+				}
+				if st, isS := in.(*ssa.Store); isS && strings.HasSuffix(w.Canon(st.Val), ".TotalPower)") && strings.Contains(w.Canon(st.Val), " + ") {
 					ok = true
+				}
+				if c, isC := in.(*ssa.Call); isC {
+					if cal := c.Common().StaticCallee(); cal != nil && w.InModule(cal) && w.FuncPkgPath(cal) == w.FuncPkgPath(q) {
+						scan(cal, depth+1)
+					}
 				}
 			}
 		}
 	}
+	scan(q, 0)
 	r.Check(ok, "B-4", "Query:total_power", "the total-power query accumulates TotalPower of every delegatee of the immutable ledger", "the total-power query does not sum the delegatees' TotalPower", fnSite(w, q))
 }
 
@@ -1030,20 +1049,19 @@ func j1(w *World, r *Report) {
 	}
 	gp := needFn(r, "J-1", w, fref{"ctrlers/gov", "GovCtrler", "doPunish"})
 	if gp != nil {
-		cl := w.anonOf("ctrlers/gov", "GovCtrler", "doPunish", 1)
-		okSel := false
-		if cl != nil {
-			for _, b := range cl.Blocks {
-				for _, in := range b.Instrs {
-					if c, isC := in.(ssa.CallInstruction); isC {
-						s := w.canonCall(c.Common(), 0)
-						if strings.HasPrefix(s, "bytes.Compare(") && strings.Contains(s, ".Addr, ") && strings.HasSuffix(s, "Validator.Address)") {
-							okSel = true
-						}
-					}
-				}
+		// somewhere under doPunish (closures and helpers included) a voter's address is
+		// compared for equality with the evidence's validator address
+		okSel := w.findAtomDeep(gp, 0, func(a atom) bool {
+			if a.Rel != relEQ && a.Rel != relLT|relGT {
+				return false
 			}
-		}
+			l, rr := strings.ReplaceAll(a.L, "^", ""), strings.ReplaceAll(a.R, "^", "")
+			isAddr := func(x string) bool { return strings.HasSuffix(x, ".Addr") }
+			isEvi := func(x string) bool {
+				return strings.HasSuffix(x, "p0.Validator.Address") || strings.HasSuffix(x, "p0.Validator.Address)")
+			}
+			return (isAddr(l) && isEvi(rr)) || (isAddr(rr) && isEvi(l))
+		})
 		r.Check(okSel, "J-1", "GovCtrler.doPunish:selection", "only proposals whose voters contain the evidence's validator address are touched", "governance punishment is not restricted to proposals the offender votes in", fnSite(w, gp))
 		okP := false
 		var pc, sc ssa.CallInstruction
@@ -1392,4 +1410,47 @@ func (w *World) funcValueSources(v ssa.Value, depth int) []ssa.Value {
 		}
 	}
 	return nil
+}
+
+// findAtomDeep: some branch condition under fn — its closures and static module
+// callees included, parameters bound to arguments — normalises to an atom that
+// satisfies pred.
+func (w *World) findAtomDeep(fn *ssa.Function, depth int, pred func(atom) bool) bool {
+	if fn == nil || fn.Blocks == nil || depth > 2 {
+		return false
+	}
+	for _, b := range fn.Blocks {
+		if ifi, ok := lastInstr(b).(*ssa.If); ok {
+			for _, plain := range []bool{true, false} {
+				w.noHelperAtoms = plain
+				a, ok := w.atomOf(ifi.Cond)
+				w.noHelperAtoms = false
+				if ok && pred(a) {
+					return true
+				}
+			}
+		}
+	}
+	for _, a := range fn.AnonFuncs {
+		if w.findAtomDeep(a, depth, pred) {
+			return true
+		}
+	}
+	for _, c := range CallsIn(fn) {
+		cal := c.Common().StaticCallee()
+		if cal == nil || !w.InModule(cal) || cal.Blocks == nil || cal == fn || len(cal.Params) != len(c.Common().Args) || cal.Parent() != nil {
+			continue
+		}
+		env := map[*ssa.Parameter]string{}
+		for j, p := range cal.Params {
+			env[p] = w.Canon(c.Common().Args[j])
+		}
+		w.inlineEnv = append(w.inlineEnv, env)
+		hit := w.findAtomDeep(cal, depth+1, pred)
+		w.inlineEnv = w.inlineEnv[:len(w.inlineEnv)-1]
+		if hit {
+			return true
+		}
+	}
+	return false
 }
